@@ -175,7 +175,7 @@ Theorem code_add_chunk_followed refuse a x w rc text hdr hsz arr cap chunks rcx 
   heap w a = Some (CItem rc (NChunked text hdr arr cap chunks)) ->
   heap w hdr = Some (CData hsz) ->
   block_inv w arr cap -> arr <> Some hdr ->
-  heap w x = Some (CItem rcx nx) ->
+  heap w x = Some (CItem rcx nx) -> chunk_ok text nx ->
   a <> x ->
   cap < 2 ^ 64 -> len chunks <= cap ->
   let p := (if text then Gcbor_string_add_chunk else Gcbor_bytestring_add_chunk)
@@ -189,7 +189,7 @@ Theorem code_add_chunk_followed refuse a x w rc text hdr hsz arr cap chunks rcx 
     trace w' = req_events arr (if ret_bool p then Some (next w) else None) (p_reqs p) ++ trace w /\
     (ret_bool p = false -> same_heap w w').
 Proof.
-  intros Hwf Ha Hh Hb Hah Hx Hax H64 Hle.
+  intros Hwf Ha Hh Hb Hah Hx Hk Hax H64 Hle.
   destruct text; [rewrite bridge_plan_string_add_chunk by lia | rewrite bridge_plan_bytestring_add_chunk by lia];
     eapply add_chunk_follows_plan; eassumption.
 Qed.
